@@ -26,7 +26,7 @@ let z_of_string (s : string) : z =
 let rec int64_of_pos = function XH -> 1L | XO p -> Int64.shift_left (int64_of_pos p) 1
                               | XI p -> Int64.logor (Int64.shift_left (int64_of_pos p) 1) 1L
 let string_of_chars l = String.of_seq (List.to_seq l)
-let string_of_z z = string_of_chars (z_dec z)
+let string_of_z z = string_of_chars (dec_of_Z z)
 
 (* ---- C02 ---- *)
 let op_of_string = function
@@ -47,6 +47,26 @@ let chain_of_sexp = function
   | L ops -> List.map (function A o -> (op_of_string o, O) | _ -> failwith "chain") ops
   | _ -> failwith "chain"
 
+(* ---- N ---- *)
+let n_of_int (i : int) : n = if i = 0 then N0 else Npos (pos_of_int i)
+let int_of_n = function N0 -> 0 | Npos p -> Int64.to_int (int64_of_pos p)
+
+(* ---- C13 ---- *)
+let akind_of_sexp = function
+  | L [A "w"; A d; A ok] -> AWell (bytes_of_atom d, ok = "1")
+  | L [A "m"; A tag] -> AMal (n_of_int (int_of_string tag))
+  | _ -> failwith "akind"
+let sexp_of_akind = function
+  | AWell (d, ok) -> L [A "w"; A (atom_of_bytes d); A (if ok then "1" else "0")]
+  | AMal t -> L [A "m"; A (string_of_int (int_of_n t))]
+let tfile_of_sexp = function
+  | L [A name; A be; L asserts] ->
+    { fname = bytes_of_atom name; asserts = List.map akind_of_sexp asserts; build_err = (be = "1") }
+  | _ -> failwith "tfile"
+let sexp_of_report r =
+  L [A (match r.rverdict with Pass -> "Pass" | Fail -> "Fail");
+     L (List.map (fun ((i, ok), a) -> L [A (string_of_int (int_of_n i)); A (if ok then "1" else "0"); sexp_of_akind a]) r.rlog)]
+
 let run mode (line : string) : string =
   let x = parse line in
   match mode with
@@ -54,6 +74,12 @@ let run mode (line : string) : string =
     (match climb_code O (chain_of_sexp x) with None -> "none" | Some s -> to_string (sexp_of_shape s))
   | "spec" ->
     (match spec_doc O (chain_of_sexp x) with None -> "none" | Some s -> to_string (sexp_of_shape s))
+  | "testrun" | "testrun_shared" ->
+    (match x with
+     | L files ->
+       let rs = test_run (if mode = "testrun" then PerFile else Shared) (List.map tfile_of_sexp files) in
+       to_string (L [A (string_of_int (int_of_n (exit_code rs))); L (List.map sexp_of_report rs)])
+     | _ -> failwith "testrun")
   | "zdec" -> (match x with A s -> string_of_z (z_of_string s) | _ -> failwith "zdec")
   | _ -> failwith ("mode " ^ mode)
 
